@@ -441,6 +441,11 @@ func c02Real(env *core.Env) {
 func c02RunReal(c *core.Ctx) {
 	c02Real(c.Env)
 	corp := gen.LoadCorpus(c.Env.RepoDir)
+	if len(corp.Requests) == 0 || len(corp.Hosts) == 0 {
+		c.Inconclusive("bundled corpora not found")
+
+		return
+	}
 	for k := 0; k < 12; k++ {
 		h := corp.Hosts[c.Rng.Intn(len(corp.Hosts))]
 		switch c.Rng.Intn(6) {
